@@ -268,6 +268,66 @@ theorem nc_literal (vs en) : NC (.literal vs en) := by
     · split <;> rfl
     · split <;> rfl
 
+/-! ### no crash of the two general union methods -/
+theorem runUnion_nc : ∀ (ms : List Meth) (d : Py) (err : Option Err),
+    (∀ m ∈ ms, (run m d).isCrash = false) → (ms ≠ [] ∨ err.isSome = true) → (runUnion ms d err).isCrash = false
+  | [], d, err, _, hne => by
+    rw [runUnion]; unfold unionEnd
+    cases err with
+    | none => rcases hne with h | h <;> simp at h
+    | some e => rfl
+  | m :: ms, d, err, h, _ => by
+    rw [runUnion]
+    have hm := h m (List.mem_cons_self ..)
+    unfold unionStep
+    cases hr : run m d with
+    | ok v => rfl
+    | crash c => rw [hr] at hm; cases hm
+    | invalid e => exact runUnion_nc ms d _ (fun m' hm' => h m' (List.mem_cons_of_mem _ hm')) (Or.inr rfl)
+
+theorem nc_union {ms : List Meth} (hne : ms ≠ []) (h : ∀ m ∈ ms, NC m) : NC (.union ms) := by
+  intro d hd; rw [run]
+  exact runUnion_nc ms d Option.none (fun m hm => h m hm d hd) (Or.inl hne)
+
+theorem nc_byTypeTail {others d r} (hr : r.isCrash = false) : (byTypeTail others d r).isCrash = false := by
+  unfold byTypeTail
+  cases r with
+  | ok v => rfl
+  | crash c => cases hr
+  | invalid e => simp only [badType]; rfl
+
+theorem runByType_nc : ∀ (rest all : List (JClass × Meth)) (c : JClass) (d : Py),
+    (∀ p ∈ rest, (run p.2 d).isCrash = false) → (runByType rest all c d).isCrash = false
+  | [], all, c, d, _ => by rw [runByType]; rfl
+  | (c', m) :: rest, all, c, d, h => by
+    rw [runByType]
+    split
+    · exact nc_byTypeTail (h (c', m) (List.mem_cons_self ..))
+    · exact runByType_nc rest all c d (fun p hp => h p (List.mem_cons_of_mem _ hp))
+
+theorem nc_unionByType {tbl : List (JClass × Meth)} (h : ∀ p ∈ tbl, NC p.2) : NC (.unionByType tbl) := by
+  intro d hd; rw [run]
+  cases hc : d.jclass? with
+  | none => rfl
+  | some c => exact runByType_nc tbl tbl c d (fun p hp => h p hp d hd)
+
+/-- whichever method `union()` selects, it does not crash when the alternatives do not (and `next(...)` finds the
+    alternative that is not `None` when `OptionalMethod` is chosen) -/
+theorem nc_unionSel {clss : List (Option JClass)} {hasNone : Bool} {ms : List Meth} (hne : ms ≠ [])
+    (hfind : ((clss.zip ms).find? (fun p => p.1 != some .null)).isSome = true)
+    (h : ∀ m ∈ ms, NC m) : NC (unionSel clss hasNone ms) := by
+  unfold unionSel
+  simp only
+  split
+  · split
+    · next p m hf =>
+      have := List.mem_of_find?_eq_some hf
+      exact nc_optional (h m (List.of_mem_zip this).2)
+    · next hf => rw [hf] at hfind; cases hfind
+  · split
+    · exact nc_unionByType (fun p hp => h p.2 (List.of_mem_zip hp).2)
+    · exact nc_union hne h
+
 theorem merge_unique' {c cs : Constraints} (h1 : c.unique = false) (h2 : cs.unique = false) :
     (c.merge cs).unique = false := by
   show (c.unique || cs.unique) = false
@@ -316,13 +376,14 @@ theorem nc_any (c : Constraints) (hu : c.unique = false) : ∀ d, d.jsonX = true
     | none => rw [hl] at this; cases this
     | some rs => simp only [runAny, hl]; exact nc_constrained _ _
 
-/-- **C03 (no crash), version 1.** For every type of the C01 scope without `uniqueItems`, every inherited
-    constraint set, every option record with the two repairs, and every JSON datum (integers within the
-    range of a double), the compiled method returns a value or a `ValidationError`. -/
-theorem no_crash (o : DOpts) (ho : OptsOk o) :
-    (∀ cs t, t.acc = true → t.nouq = true → cs.unique = false → NC (compile o cs t)) ∧
-    (∀ fs, accF fs = true → nouqF fs = true → ∀ p ∈ compileF o fs, NC p.2) ∧
-    (∀ cs ts, accL ts = true → nouqL ts = true → cs.unique = false → ∀ m ∈ compileL o cs ts, NC m) := by
+/-- **C03 (no crash), version 2.** For every type of the scope `Ty.accU` (unions of any shape at any depth) without
+    `uniqueItems`, every inherited constraint set, every option record with the two repairs, and every JSON datum
+    (integers within the range of a double; tuples / bytes allowed as leaves), the compiled method returns a value or
+    a `ValidationError`: whichever of `OptionalMethod`, `UnionByTypeMethod`, `UnionMethod` is selected. -/
+theorem no_crashU (o : DOpts) (ho : OptsOk o) :
+    (∀ cs t, t.accU = true → t.nouq = true → cs.unique = false → NC (compile o cs t)) ∧
+    (∀ fs, accUF fs = true → nouqF fs = true → ∀ p ∈ compileF o fs, NC p.2) ∧
+    (∀ cs ts, accUL ts = true → nouqL ts = true → cs.unique = false → ∀ m ∈ compileL o cs ts, NC m) := by
   have hq1 : o.quirks.floatAcceptsBool = false := by rw [ho.quirks]; rfl
   have hq2 : o.quirks.tupleDropsErrors = false := by rw [ho.quirks]; rfl
   apply compile.mutual_induct
@@ -335,15 +396,15 @@ theorem no_crash (o : DOpts) (ho : OptsOk o) :
   · intro cs h _ _ _ d hd; rw [compile, if_pos h, run]; exact nc_prim_str _ d hd
   · intro cs h _ _ _ d hd; rw [compile, if_neg h, run]; exact nc_prim_str _ d hd
   · intro cs _ _ hu d hd; rw [compile, run]; exact nc_any cs hu d hd
-  · intro cs t ih ha hn hu; rw [Ty.acc] at ha; rw [Ty.nouq] at hn
+  · intro cs t ih ha hn hu; rw [Ty.accU] at ha; rw [Ty.nouq] at hn
     rw [compile]; exact nc_listSel hu (ih ha hn rfl)
-  · intro cs t _ ha; rw [Ty.acc] at ha; cases ha
-  · intro cs t _ ha; rw [Ty.acc] at ha; cases ha
-  · intro cs t ih ha hn hu; rw [Ty.acc] at ha; rw [Ty.nouq] at hn
+  · intro cs t _ ha; rw [Ty.accU] at ha; cases ha
+  · intro cs t _ ha; rw [Ty.accU] at ha; cases ha
+  · intro cs t ih ha hn hu; rw [Ty.accU] at ha; rw [Ty.nouq] at hn
     rw [compile]; intro d hd; rw [run]
     exact nc_mapVal_tuple (nc_listSel hu (ih ha hn rfl) d hd)
   · -- tuple
-    intro cs ts ih ha hn hu; rw [Ty.acc] at ha; rw [Ty.nouq] at hn
+    intro cs ts ih ha hn hu; rw [Ty.accU] at ha; rw [Ty.nouq] at hn
     rw [compile, hq2]; intro d hd; rw [run]
     cases d <;> try (first | exact nc_badType hd | cases hd)
     case list xs =>
@@ -355,49 +416,62 @@ theorem no_crash (o : DOpts) (ho : OptsOk o) :
         · rfl
         · exact nc_finish (runTuple_nocrash _ xs 0 (ih ha hn rfl) hd) (listErrors_isSome cs xs hu) (fun _ => rfl)
   · intro cs k v ihk ihv ha hn hu
-    rw [Ty.acc, Bool.and_eq_true] at ha; rw [Ty.nouq, Bool.and_eq_true] at hn
+    rw [Ty.accU, Bool.and_eq_true] at ha; rw [Ty.nouq, Bool.and_eq_true] at hn
     rw [compile]; exact nc_mappingSel (ihk ha.1 hn.1 rfl) (ihv ha.2 hn.2 rfl)
-  · -- Optional
-    intro cs ts ih ha hn hu; rw [Ty.acc] at ha; rw [Ty.nouq] at hn
-    obtain ⟨t, rfl, hacc, hcls⟩ := accOpt_cases ha
-    have hl := ih (by rw [accL, accL, accL]; simp [hacc, Ty.acc]) hn hu
-    rw [compile, compileL, compileL, compileL, clsL, clsL, clsL, anyNull, anyNull, anyNull]
-    have hsel : unionSel [t.factoryCls, Ty.null.factoryCls] (t.isNull || (Ty.null.isNull || false))
-        [compile o cs t, compile o cs Ty.null] = .optional (compile o cs t) := by
-      unfold unionSel; simp [Ty.isNull, hcls]
-    rw [hsel]
-    exact nc_optional (hl _ (by rw [compileL]; exact List.mem_cons_self ..))
+  · -- unions of any shape
+    intro cs ts ih ha hn hu; rw [Ty.accU] at ha; rw [Ty.nouq] at hn
+    simp only [Bool.and_eq_true, Bool.not_eq_true', Bool.not_eq_eq_eq_not, Bool.not_true] at ha
+    rw [compile]
+    have hne : compileL o cs ts ≠ [] := by
+      cases ts with
+      | nil => simp at ha
+      | cons t ts => rw [compileL]; exact List.cons_ne_nil _ _
+    exact nc_unionSel hne (find_nonNull o cs ts ha.1.2 ha.2) (ih ha.1.1 hn hu)
   · intro cs vs _ _ _; rw [compile]; exact nc_literal _ _
   · intro cs c ms _ _ _; rw [compile]; exact nc_literal _ _
-  · intro cs n t ih ha hn hu; rw [Ty.acc] at ha; rw [Ty.nouq] at hn; rw [compile]; exact ih ha hn hu
-  · intro cs c t ih ha hn hu; rw [Ty.acc] at ha; rw [Ty.nouq] at hn
+  · intro cs n t ih ha hn hu; rw [Ty.accU] at ha; rw [Ty.nouq] at hn; rw [compile]; exact ih ha hn hu
+  · intro cs c t ih ha hn hu; rw [Ty.accU] at ha; rw [Ty.nouq] at hn
     simp only [Bool.and_eq_true, Bool.not_eq_true'] at hn
     rw [compile]; exact ih ha hn.2 (merge_unique' hn.1 hu)
   · intro cs ci fs ih ha hn _
-    rw [Ty.acc, Bool.and_eq_true] at ha; rw [Ty.nouq] at hn
+    rw [Ty.accU, Bool.and_eq_true] at ha; rw [Ty.nouq] at hn
     rw [compile]; exact nc_objSel (ih ha.2 hn)
   · intro cs _ _ _ m hm; rw [compileL] at hm; cases hm
   · intro cs t ts iht ihts ha hn hu m hm
-    rw [accL, Bool.and_eq_true] at ha; rw [nouqL, Bool.and_eq_true] at hn
+    rw [accUL, Bool.and_eq_true] at ha; rw [nouqL, Bool.and_eq_true] at hn
     rw [compileL] at hm
     rcases List.mem_cons.1 hm with rfl | hm'
     · exact iht ha.1 hn.1 hu
     · exact ihts ha.2 hn.2 hu m hm'
   · intro _ _ p hp; rw [compileF] at hp; cases hp
   · intro f t fs iht ihfs ha hn p hp
-    rw [accF] at ha; simp only [Bool.and_eq_true, Bool.not_eq_true'] at ha
+    rw [accUF] at ha; simp only [Bool.and_eq_true, Bool.not_eq_true'] at ha
     rw [nouqF, Bool.and_eq_true] at hn
     rw [compileF] at hp
     rcases List.mem_cons.1 hp with rfl | hp'
     · exact iht ha.1.2 hn.1 rfl
     · exact ihfs ha.2 hn.2 p hp'
 
+
+/-- **C03 (no crash), version 1**: the statement over `Ty.acc` (a union is only `Optional[T]`) -/
+theorem no_crash (o : DOpts) (ho : OptsOk o) :
+    (∀ cs t, t.acc = true → t.nouq = true → cs.unique = false → NC (compile o cs t)) ∧
+    (∀ fs, accF fs = true → nouqF fs = true → ∀ p ∈ compileF o fs, NC p.2) ∧
+    (∀ cs ts, accL ts = true → nouqL ts = true → cs.unique = false → ∀ m ∈ compileL o cs ts, NC m) :=
+  ⟨fun cs t ha => (no_crashU o ho).1 cs t (acc_accU.1 t ha),
+   fun fs ha => (no_crashU o ho).2.1 fs (acc_accU.2.1 fs ha),
+   fun cs ts ha => (no_crashU o ho).2.2 cs ts (acc_accU.2.2.2 ts ha)⟩
+
 /-- entry point -/
-theorem C03_no_crash (o : DOpts) (ho : OptsOk o) (t : Ty) (ha : t.acc = true) (hn : t.nouq = true)
+theorem C03_no_crashU (o : DOpts) (ho : OptsOk o) (t : Ty) (ha : t.accU = true) (hn : t.nouq = true)
     (d : Py) (hd : d.jsonX = true) : (deserialize o {} t d).isCrash = false := by
   unfold deserialize
-  simp only [(compile_noFail o).1 {} t ha]
-  exact (no_crash o ho).1 {} t ha hn rfl d hd
+  simp only [(compile_noFailU o).1 {} t ha]
+  exact (no_crashU o ho).1 {} t ha hn rfl d hd
+
+theorem C03_no_crash (o : DOpts) (ho : OptsOk o) (t : Ty) (ha : t.acc = true) (hn : t.nouq = true)
+    (d : Py) (hd : d.jsonX = true) : (deserialize o {} t d).isCrash = false :=
+  C03_no_crashU o ho t (acc_accU.1 t ha) hn d hd
 
 /-- in particular on JSON data -/
 theorem C03_no_crash_json (o : DOpts) (ho : OptsOk o) (t : Ty) (ha : t.acc = true) (hn : t.nouq = true)
